@@ -166,11 +166,26 @@ func (g *Gen) run() (err error) {
 	if g.c != nil {
 		for pname, dc := range g.c.DynCallee {
 			for gname, rname := range dc.Bind {
+				type namedV interface {
+					Name() string
+					Type() types.Type
+				}
+				var holders []namedV
 				for _, p := range fn.Params {
+					holders = append(holders, p)
+				}
+				for _, fv := range fn.FreeVars {
+					holders = append(holders, fv)
+				}
+				for _, p := range holders {
 					var sig *types.Signature
 					ok := false
 					if p.Name() == pname {
 						sig, ok = p.Type().Underlying().(*types.Signature)
+						if pt, isP := p.Type().Underlying().(*types.Pointer); !ok && isP {
+							// a function value in a variable captured by reference
+							sig, ok = pt.Elem().Underlying().(*types.Signature)
+						}
 					} else if strings.HasPrefix(pname, p.Name()+".") {
 						if pt, isP := p.Type().Underlying().(*types.Pointer); isP {
 							if st, isS := pt.Elem().Underlying().(*types.Struct); isS {
